@@ -102,6 +102,67 @@ def md4(data):
     return b"".join(v.to_bytes(4, "little") for v in (a, b, c, d))
 
 
+# ---------------------------------------------------------------------------
+# the same function in pieces, for messages too long to hold: chaining state after whole blocks, and the final step
+# (RFC 1320 3.1 / 3.2: the length appended is the message's bit length modulo 2^64, low-order word first)
+# ---------------------------------------------------------------------------
+INITIAL_STATE = (0x67452301, 0xEFCDAB89, 0x98BADCFE, 0x10325476)
+
+
+def md4_absorb(state, data):
+    """chaining state after absorbing `data` (a whole number of 64-byte blocks) starting from `state`"""
+    if len(data) % 64:
+        raise ValueError("whole blocks only")
+    a, b, c, d = state
+    for offset in range(0, len(data), 64):
+        x = [int.from_bytes(data[offset + 4 * j : offset + 4 * j + 4], "little") for j in range(16)]
+        aa, bb, cc, dd = a, b, c, d
+        for i in range(16):
+            k, s = ROUND1_K[i], ROUND1_S[i % 4]
+            if i % 4 == 0:
+                a = _rotl(a + _f(b, c, d) + x[k], s)
+            elif i % 4 == 1:
+                d = _rotl(d + _f(a, b, c) + x[k], s)
+            elif i % 4 == 2:
+                c = _rotl(c + _f(d, a, b) + x[k], s)
+            else:
+                b = _rotl(b + _f(c, d, a) + x[k], s)
+        for i in range(16):
+            k, s = ROUND2_K[i], ROUND2_S[i % 4]
+            if i % 4 == 0:
+                a = _rotl(a + _g(b, c, d) + x[k] + 0x5A827999, s)
+            elif i % 4 == 1:
+                d = _rotl(d + _g(a, b, c) + x[k] + 0x5A827999, s)
+            elif i % 4 == 2:
+                c = _rotl(c + _g(d, a, b) + x[k] + 0x5A827999, s)
+            else:
+                b = _rotl(b + _g(c, d, a) + x[k] + 0x5A827999, s)
+        for i in range(16):
+            k, s = ROUND3_K[i], ROUND3_S[i % 4]
+            if i % 4 == 0:
+                a = _rotl(a + _h(b, c, d) + x[k] + 0x6ED9EBA1, s)
+            elif i % 4 == 1:
+                d = _rotl(d + _h(a, b, c) + x[k] + 0x6ED9EBA1, s)
+            elif i % 4 == 2:
+                c = _rotl(c + _h(d, a, b) + x[k] + 0x6ED9EBA1, s)
+            else:
+                b = _rotl(b + _h(c, d, a) + x[k] + 0x6ED9EBA1, s)
+        a, b, c, d = (a + aa) & MASK, (b + bb) & MASK, (c + cc) & MASK, (d + dd) & MASK
+    return (a, b, c, d)
+
+
+def md4_finish(state, nblocks, tail):
+    """digest of a message of `nblocks` whole blocks (already absorbed into `state`) followed by `tail` (< 64 bytes)"""
+    if len(tail) >= 64:
+        raise ValueError("tail must be shorter than a block")
+    bit_len = (nblocks * 512 + 8 * len(tail)) & 0xFFFFFFFFFFFFFFFF
+    padded = bytes(tail) + b"\x80"
+    while len(padded) % 64 != 56:
+        padded += b"\x00"
+    padded += bit_len.to_bytes(8, "little")
+    return b"".join(v.to_bytes(4, "little") for v in md4_absorb(state, padded))
+
+
 def md4_hex(data):
     return md4(data).hex()
 
